@@ -39,6 +39,8 @@ structure DSt where
   refusedLater : Bool := false          -- a runtime batch/addition was refused in this case
   skipRest : Bool := false              -- harness ended the case (E line); ignore up to the next C
   groupsCmp : Nat := 0
+  reprAgree : Nat := 0                  -- representation-level observations (group objects, keys, registry size)
+  reprDiffer : Nat := 0                 --   equal / different from the registry model: statistics, never an alarm
   rtAdds : Nat := 0
   rtRefused : Nat := 0
   rtDeletes : Nat := 0
@@ -159,6 +161,31 @@ def modelGroups (st : RState) (nn : Nat) : String :=
     if gs.isEmpty then "0" else "+".intercalate (sortStrings gs))
   ";".intercalate (perNode ++ [s!"reg={st.registry.length}"])
 
+/-- merge `(name, ids)` pairs by name, ids sorted, empty classes dropped, sorted by name. -/
+def canonClasses (pairs : List (String × List Nat)) : String :=
+  let names := (pairs.map (·.1)).eraseDups
+  let cls := names.filterMap (fun nm =>
+    let ids := sortNats ((pairs.filter (·.1 == nm)).flatMap (·.2)).eraseDups
+    if ids.isEmpty then none else some (nm ++ ":" ++ ",".intercalate (ids.map toString)))
+  if cls.isEmpty then "0" else "+".intercalate (sortStrings cls)
+
+/-- denotation of a `G` observation: representation details (which group objects exist, their keys,
+    totals, the registry size) are dropped. -/
+def denoteGroups (obs : String) : String :=
+  let parts := (obs.splitOn ";").filter (fun p => !p.startsWith "reg=")
+  ";".intercalate (parts.map (fun p =>
+    if p == "0" || p == "x" then p else
+    canonClasses ((p.splitOn "+").map (fun grp =>
+      match grp.splitOn "/" with
+      | [name, _, own, _] => (name, (own.splitOn ",").filterMap String.toNat?)
+      | _ => ("?" ++ grp, [0])))))
+
+/-- the same denotation computed from the live set alone (specification level). -/
+def liveDenotation (live : List (Nat × Dep)) (nn : Nat) : String :=
+  ";".intercalate ((List.range nn).map (fun v =>
+    canonClasses ((live.filter (fun x => x.2.child == v)).map (fun x =>
+      ((match x.2.group with | some g => g | none => "-"), [x.1])))))
+
 def addAll (st : RState) (xs : List (Nat × Dep)) : RState := xs.foldl (fun s x => addDep s (ldep x)) st
 
 def handle (d : DSt) (n : Nat) (line : String) : IO DSt := do
@@ -259,9 +286,13 @@ def handle (d : DSt) (n : Nat) (line : String) : IO DSt := do
       let mut d := bump d (line.takeWhile (· != '|')).toString
       d := { d with rtAdds := d.rtAdds + 1 }
       let rst' := if acc then addDep d.rst (ldep (id, dep)) else d.rst
-      let mcounts := (List.range nn).map (fun v => toString (depsOf g' v).length) ++ [s!"reg={rst'.registry.length}"]
+      let mcounts := (List.range nn).map (fun v => toString (depsOf g' v).length)
+      if obs.filter (fun w => w.startsWith "reg=") == [s!"reg={rst'.registry.length}"] then
+        d := { d with reprAgree := d.reprAgree + 1 }
+      else
+        d := { d with reprDiffer := d.reprDiffer + 1 }
       let mline := " ".intercalate (mo :: mcounts)
-      let iline := " ".intercalate (io :: obs)
+      let iline := " ".intercalate (io :: obs.filter (fun w => !w.startsWith "reg="))
       if mline != iline then
         IO.println s!"MISMATCH line={n} case={d.caseNo} what=runtime-add impl={iline.replace " " ","} model={mline.replace " " ","}"
         d := { d with mismatches := d.mismatches + 1 }
@@ -303,9 +334,18 @@ def handle (d : DSt) (n : Nat) (line : String) : IO DSt := do
     | [io] =>
       let mo := modelGroups d.rst d.nodes.size
       let mut d := { d with groupsCmp := d.groupsCmp + 1 }
-      if mo != io then
-        IO.println s!"MISMATCH line={n} case={d.caseNo} what=groups impl={io} model={mo}"
+      if mo == io then d := { d with reprAgree := d.reprAgree + 1 } else d := { d with reprDiffer := d.reprDiffer + 1 }
+      -- compared: the denotation the property names — per checkable, its live dependencies grouped by
+      -- redundancy group (all dependencies outside redundancy groups form one class)
+      let iden := denoteGroups io
+      let mden := denoteGroups mo
+      if mden != iden then
+        IO.println s!"MISMATCH line={n} case={d.caseNo} what=groups impl={iden} model={mden}"
         d := { d with mismatches := d.mismatches + 1 }
+      let sden := liveDenotation d.live d.nodes.size
+      if sden != iden then
+        if !d.caseFailed then IO.println s!"SPECFAIL line={n} case={d.caseNo} clause={Clause.liveSet.name}"
+        d := { d with specfails := d.specfails + 1, caseFailed := true }
       return d
     | _ => bad
   | "Q" :: rest =>
@@ -327,11 +367,18 @@ def handle (d : DSt) (n : Nat) (line : String) : IO DSt := do
         let mut d := bump d (bits ++ "Q")
         d := { d with queries := d.queries + 1, evals := d.evals + 3 * nn }
         -- model
-        let mtoks := (List.range nn).map (modelNodeObs g)
+        -- compared: reachability bits and the number of live dependencies per checkable (what the property
+        -- names).  The number of group objects and the registry size are representation: statistics only.
+        let stripGroups := fun (t : String) => ":".intercalate ((t.splitOn ":").take 2)
+        let mtoksFull := (List.range nn).map (modelNodeObs g)
         let mregN := registrySize g (List.range nn)
         let mreg := if mregN == d.rst.registry.length then s!"reg={mregN}" else s!"reg={mregN}|{d.rst.registry.length}"
-        let mline := " ".intercalate (mtoks ++ [mreg])
-        let iline := " ".intercalate (nodeToks ++ regTok)
+        if " ".intercalate (mtoksFull ++ [mreg]) == " ".intercalate (nodeToks ++ regTok) then
+          d := { d with reprAgree := d.reprAgree + 1 }
+        else
+          d := { d with reprDiffer := d.reprDiffer + 1 }
+        let mline := " ".intercalate (mtoksFull.map stripGroups)
+        let iline := " ".intercalate (nodeToks.map stripGroups)
         if mline != iline then
           IO.println s!"MISMATCH line={n} case={d.caseNo} what=query impl={iline.replace " " ","} model={mline.replace " " ","}"
           d := { d with mismatches := d.mismatches + 1 }
@@ -366,4 +413,4 @@ def main : IO Unit := do
   let stdin ← IO.getStdin
   let d ← foldLines stdin handle ({} : DSt)
   let d := closeCase d
-  IO.println s!"STATS cases={d.caseNo} queries={d.queries} evaluations={d.evals} unreachable_bits={d.bits0} reachable_bits={d.bits1} spec_queries={d.specQ} spec_skipped={d.specSkipped} loads_ok={d.loadsOk} loads_cycle={d.loadsCycle} adds={d.adds} removes={d.removes} state_sets={d.sets} max_depth={d.maxDepth} groups_compared={d.groupsCmp} runtime_adds={d.rtAdds} runtime_refused={d.rtRefused} runtime_deletes={d.rtDeletes} nontrivial={d.nontrivial} mismatches={d.mismatches} specfails={d.specfails}"
+  IO.println s!"STATS cases={d.caseNo} queries={d.queries} evaluations={d.evals} unreachable_bits={d.bits0} reachable_bits={d.bits1} spec_queries={d.specQ} spec_skipped={d.specSkipped} loads_ok={d.loadsOk} loads_cycle={d.loadsCycle} adds={d.adds} removes={d.removes} state_sets={d.sets} max_depth={d.maxDepth} groups_compared={d.groupsCmp} repr_agree={d.reprAgree} repr_differ={d.reprDiffer} runtime_adds={d.rtAdds} runtime_refused={d.rtRefused} runtime_deletes={d.rtDeletes} nontrivial={d.nontrivial} mismatches={d.mismatches} specfails={d.specfails}"
